@@ -476,7 +476,7 @@ def sorted_model(ex, v, rev, node):
     conc = ex.try_iter_concrete(v)
     if conc is not None and len(conc) <= 1:
         return ex.alloc(CList(tuple(conc)))
-    if conc is not None and len(conc) <= 3 and all(is_z3(lift(x)) and not is_bool(lift(x)) for x in conc):
+    if conc is not None and len(conc) <= 6 and all(is_z3(lift(x)) and not is_bool(lift(x)) and not isinstance(lift(x), CVal) for x in conc):
         # a list with a short concrete spine: sorted exactly by a comparison network (no assumed contract needed)
         xs = [lift(x) for x in conc]
         for i in range(len(xs)):
